@@ -64,11 +64,13 @@ class Universe:
             for k, (n, t, p) in enumerate(SIGS)) + "]"
 
     def init_state(self):
-        vals = [self.sig_defaults[k] if self.sig_hasdef[k] else 0 for k in range(len(SIGS))] + list(self.var_defaults)
+        # the last entry is a ghost variable of the reference only: the index captured by an element reference
+        vals = [self.sig_defaults[k] if self.sig_hasdef[k] else 0 for k in range(len(SIGS))] + list(self.var_defaults) + [0]
         return "[" + "; ".join(f"{v}%Z" for v in vals) + "]"
 
 
 DEFAULT_UNI = Universe()
+NR_UNI = Universe(sig_noreset=(False, True, True, False), var_noreset=(True, False))   # pushed q1 and r0 marked noreset
 
 
 # expressions are tuples (kind, type, python text, coq text)
@@ -322,6 +324,19 @@ class Gen:
             for k in reversed(ks):
                 res = f"(RIf (XEq {u[2]} (XConst {k}%Z)) (RAssign (TSig 2) (XAdd 2%N {e[2]} (XConst {k}%Z))) {res})"
             return lines, res
+        # an element reference keeps the index it was taken with (run-time index captured at access time)
+        if self.mode == "clocked" and self.rng.random() < 0.35:
+            use_var = self.rng.random() < 0.6
+            idx = mk("u2", "v0", "(XVar 0)") if use_var else self.u2(1)
+            upd = self.u2(1)
+            b1 = self.bit(1)
+            self.refs = getattr(self, "refs", 0) + 1
+            rn = f"ref{self.refs}"
+            self.assigned_vars.add("v0")
+            lines = [ind + f"{rn} = self.w0[{idx[1]}]", ind + f"v0 @= {upd[1]}", ind + f"self.q0 <<= {rn}", ind + f"{rn} <<= {b1[1]}"]
+            st = (f"(RSeq (RAssign (TVar 2) {idx[2]}) (RSeq (RAssign (TVar 0) {upd[2]}) "
+                  f"(RSeq (RAssign (TSig 0) (XBit (XSig 3) (XVar 2))) (RAssign (TSigBit 3 (XVar 2)) {b1[2]}))))")
+            return lines, st
         # helper with returns in branches
         if self.rng.random() < 0.5:
             h = self.rng.choice(["h_for", "h_forelse", "h_forsame"])
@@ -333,6 +348,18 @@ class Gen:
                 val = p[2] if h == "h_forsame" else f"(XAdd 2%N {p[2]} (XConst {k}%Z))"
                 res = f"(XIte (XEq {u[2]} (XConst {k}%Z)) {val} {res})"
             return [ind + f"self.r0 <<= {h}({u[1]}, {p[1]}, {q[1]})"], f"(RAssign (TSig 2) {res})"
+        if self.rng.random() < 0.5:
+            c1, c2 = self.cond(), self.cond()
+            p, q = self.u2(1), self.u2(1)
+            if self.rng.random() < 0.5:
+                if "h_elseret" not in self.helpers:
+                    self.helpers.append("h_elseret")
+                return ([ind + f"self.r0 <<= h_elseret({c1[1]}, {p[1]}, {q[1]})"],
+                        f"(RAssign (TSig 2) (XIte {c1[2]} {p[2]} {q[2]}))")
+            if "h_elifret" not in self.helpers:
+                self.helpers.append("h_elifret")
+            return ([ind + f"self.r0 <<= h_elifret({c1[1]}, {c2[1]}, {p[1]}, {q[1]})"],
+                    f"(RAssign (TSig 2) (XIte {c1[2]} (XAdd 2%N {p[2]} (XConst 1%Z)) (XIte {c2[2]} (XAdd 2%N (XAdd 2%N {p[2]} (XConst 1%Z)) (XConst 1%Z)) {q[2]})))")
         c = self.cond()
         p, q = self.u2(1), self.u2(1)
         if "h_ret" not in self.helpers:
@@ -372,6 +399,10 @@ HELPERS = {
     "h_ret": ["        def h_ret(c, p, q):", "            if c:", "                return p", "            return q"],
     "h_for": ["        def h_for(u, p, q):", "            for k in range(3):", "                if u == k:",
               "                    return p + k", "            return q"],
+    "h_elseret": ["        def h_elseret(c, p, q):", "            if c:", "                pass", "            else:",
+                  "                return q", "            return p"],
+    "h_elifret": ["        def h_elifret(c1, c2, p, q):", "            if c1:", "                r = p", "            elif c2:",
+                  "                r = p + 1", "            else:", "                return q", "            return r + 1"],
     "h_forsame": ["        def h_forsame(u, p, q):", "            for k in range(3):", "                if u == k:",
                   "                    return p", "            return q"],
     "h_forelse": ["        def h_forelse(u, p, q):", "            for k in range(3):", "                if u == k:",
@@ -431,8 +462,16 @@ CORPUS = [
      "(RIf (XEq (XIn 2) (XConst 1%Z)) (RAssign (TSig 0) (XIn 0)) (RIf (XEq (XIn 2) (XConst 3%Z)) (RAssign (TSig 0) (XIn 1)) RSkip))"),
     ("comb", ["v0 @= self.x", "vb @= self.a", "self.r0 <<= v0 + self.i", "if vb:", "    self.q0 <<= self.b", "else:", "    self.q0 <<= False"],
      "(RSeq (RAssign (TVar 0) (XIn 2)) (RSeq (RAssign (TVar 1) (XIn 0)) (RSeq (RAssign (TSig 2) (XAdd 2%N (XVar 0) (XIn 3))) (RIf (XVar 1) (RAssign (TSig 0) (XIn 1)) (RAssign (TSig 0) (XConst 0%Z))))))"),
+    ("clocked", ["ref1 = self.w0[v0]", "v0 @= v0 + 1", "self.q0 <<= ref1", "ref1 <<= self.a"],
+     "(RSeq (RAssign (TVar 2) (XVar 0)) (RSeq (RAssign (TVar 0) (XAdd 2%N (XVar 0) (XConst 1%Z))) (RSeq (RAssign (TSig 0) (XBit (XSig 3) (XVar 2))) (RAssign (TSigBit 3 (XVar 2)) (XIn 0)))))"),
+    ("clocked/nrpush", ["if self.a:", "    self.q1 ^= self.b", "self.q0 <<= self.q1"],
+     "(RSeq (RIf (XIn 0) (RAssign (TPush 1) (XIn 1)) RSkip) (RAssign (TSig 0) (XSig 1)))"),
     ("clocked+h_for", ["self.r0 <<= h_for(self.x, self.i, self.r0)"],
      "(RAssign (TSig 2) (XIte (XEq (XIn 2) (XConst 0%Z)) (XAdd 2%N (XIn 3) (XConst 0%Z)) (XIte (XEq (XIn 2) (XConst 1%Z)) (XAdd 2%N (XIn 3) (XConst 1%Z)) (XIte (XEq (XIn 2) (XConst 2%Z)) (XAdd 2%N (XIn 3) (XConst 2%Z)) (XSig 2)))))"),
+    ("clocked+h_elseret", ["self.r0 <<= h_elseret(self.a, self.x, self.i)"],
+     "(RAssign (TSig 2) (XIte (XIn 0) (XIn 2) (XIn 3)))"),
+    ("clocked+h_elifret", ["self.r0 <<= h_elifret(self.a, self.b, self.x, self.i)"],
+     "(RAssign (TSig 2) (XIte (XIn 0) (XAdd 2%N (XIn 2) (XConst 1%Z)) (XIte (XIn 1) (XAdd 2%N (XAdd 2%N (XIn 2) (XConst 1%Z)) (XConst 1%Z)) (XIn 3))))"),
     ("clocked+h_forsame", ["self.r0 <<= h_forsame(self.x, self.i, self.r0)"],
      "(RAssign (TSig 2) (XIte (XEq (XIn 2) (XConst 0%Z)) (XIn 3) (XIte (XEq (XIn 2) (XConst 1%Z)) (XIn 3) (XIte (XEq (XIn 2) (XConst 2%Z)) (XIn 3) (XSig 2)))))"),
     ("clocked+h_forelse", ["self.r0 <<= h_forelse(self.x, self.i, self.r0)"],
@@ -446,29 +485,35 @@ def run(ck: common.Check, replay=None):
     ck.check_props("C03_Properties.v")
     items = []
     if replay is not None:
-        items.append(("replay", replay["meta"]["mode"], replay["meta"]["source"], replay["meta"]["ref"]))
+        items.append(("replay", replay["meta"]["mode"], replay["meta"]["source"], replay["meta"]["ref"], DEFAULT_UNI))
     else:
         for k, (mode, body, ref) in enumerate(CORPUS):
             lines = ["            " + l for l in body]
             mode, _, hs = mode.partition("+")
-            items.append((f"corpus{k:02d}", mode, to_source(mode, lines, [hs] if hs else []), ref))
+            mode, _, nr = mode.partition("/")
+            items.append((f"corpus{k:02d}", mode, to_source(mode, lines, [hs] if hs else [], NR_UNI if nr else None), ref,
+                          NR_UNI if nr else DEFAULT_UNI))
         n = 70 if ck.tier == "quick" else 1500
         for k in range(n):
             mode = ck.rng.choice(["clocked"] * 6 + ["comb"] * 2 + ["conc"] * 2)
-            g = Gen(ck.rng, mode)
+            uni = NR_UNI if ck.rng.random() < 0.3 else DEFAULT_UNI
+            g = Gen(ck.rng, mode, uni)
             lines, ref = g.program(8 if ck.tier == "quick" else 12)
-            items.append((f"rand{k:04d}", mode, to_source(mode, lines, g.helpers), ref))
-    designs = [{"name": n, "source": src, "entity": "E"} for n, _, src, _ in items]
+            items.append((f"rand{k:04d}", mode, to_source(mode, lines, g.helpers, uni), ref, uni))
+    designs = [{"name": it[0], "source": it[2], "entity": "E"} for it in items]
     res = X.compile_designs(ck, designs)
     cases = []
-    for (name, mode, src, ref), r in zip(items, res):
+    for (name, mode, src, ref, uni), r in zip(items, res):
         if not r["ok"]:
             ck.hist("rejected", r["error"][:70])
             ck.evaluations += 1
             continue
-        init = DEFAULT_UNI.init_state()
+        init = uni.init_state()
+        if mode != "clocked":
+            # an unclocked context runs once during VHDL initialisation (all inputs at their power-up value zero)
+            init = ("(fst (seq_step sdecls body %s [VL false; VL false; VV KUns 2%%N 0%%Z; VV KUns 2%%N 0%%Z]))" % init)
         c = X.Case(name, r["vhdl"], step=f"seq_step sdecls body", init=init,
-                   defs=f"Definition sdecls := {DEFAULT_UNI.sdecls()}.\nDefinition body : stm := {ref}.",
+                   defs=f"Definition sdecls := {uni.sdecls()}.\nDefinition body : stm := {ref}.",
                    imports="From Cohdl Require Import Models.SeqRef.", clk="clk" if mode == "clocked" else None,
                    alphabet_overrides={"i": "[VV KUns 2%N 0%Z; VV KUns 2%N 1%Z; VV KUns 2%N 3%Z]"} if ck.tier == "quick" else None,
                    meta={"mode": mode, "source": src, "ref": ref})
@@ -481,4 +526,5 @@ def run(ck: common.Check, replay=None):
     ck.trusted += ["fail-closed VHDL reader", "Vhdl.Sem", "SeqRef (Models/SeqRef.v) as the rendering of the documented semantics",
                    "generator -> source printer (harness/c03.py)"]
     ck.assumptions += ["bodies quantifier sampled; input sequences quantifier proved per body",
+                       "an unclocked context is evaluated once at power-up with all inputs zero (VHDL initialisation), in design and reference alike",
                        "combinational contexts do not read their own outputs (generator restriction)"]
